@@ -1,6 +1,6 @@
 (* Facts about the UTF-8 model (Model/Utf8.v): sizes, prefix stability of DecodeRune, decoded runes are
    scalar values, the range loop at boundaries, boundaries next to ASCII bytes. *)
-From Coq Require Import List NArith ZArith Bool Lia ZifyBool ZifyN ZifyNat Arith.
+From Coq Require Import List NArith ZArith Bool Lia ZifyBool ZifyN ZifyNat Arith Sorted.
 From PV Require Import Model.Utf8.
 Import ListNotations.
 Open Scope N_scope.
@@ -269,3 +269,56 @@ Qed.
 
 Lemma range_from_head s pos : s <> [] -> exists r rest, range_from s 0 pos = (pos, r) :: rest.
 Proof. intros H. rewrite range_from_unfold by assumption. eauto. Qed.
+
+(* a rune that starts with a non-ASCII byte is not an ASCII character *)
+Lemma decode_rune_high c t : 128 <= c -> 128 <= fst (decode_rune (c :: t)).
+Proof.
+  intros Hc. assert (rune_error = 65533) as Hre by reflexivity. unfold decode_rune.
+  destruct (first_byte_cases c) as [[E H]|[[E _]|(sz & lo & hi & E & Hsz & Hlo & Hhi & Hp0)]]; rewrite E; cbn [fst]; try lia.
+  unfold first_byte in E.
+  repeat match type of E with
+         | (if ?c then _ else _) = _ => destruct c eqn:?
+         end; try discriminate; injection E as <- <- <-;
+  cbn [Nat.leb];
+  repeat match goal with
+         | |- context [if ?c then (rune_error, _) else _] => destruct c eqn:?
+         end; cbn [fst]; try lia.
+  all: set (b1 := nth 1 (c :: t) 0) in *; set (b2 := nth 2 (c :: t) 0) in *; set (b3 := nth 3 (c :: t) 0) in *.
+  all: clearbody b1 b2 b3.
+  all: try modfacts b3 64; try modfacts b2 64; try modfacts b1 64.
+  all: try modfacts c 32; try modfacts c 16; try modfacts c 8.
+  all: lia.
+Qed.
+
+(* the trailing bytes of a multi-byte rune are continuation bytes, the first one is a lead byte *)
+Lemma multibyte_cont s i : (2 <= rune_size s)%nat -> (1 <= i < rune_size s)%nat -> 128 <= nth i s 0 <= 191.
+Proof.
+  destruct s as [|p0 t]; [cbn; lia|]. unfold rune_size, decode_rune.
+  destruct (first_byte_cases p0) as [[E _]|[[E _]|(sz & lo & hi & E & Hsz & Hlo & Hhi & Hp0)]]; rewrite E; cbn [snd]; try lia.
+  destruct Hsz as [-> | [-> | ->]];
+  destruct t as [|b1 [|b2 [|b3 t]]]; cbn [length nth Nat.ltb Nat.leb]; cbn [snd]; try lia;
+  repeat match goal with
+         | |- context [if ?c then _ else _] => destruct c eqn:?
+         end; cbn [snd]; try lia; intros _ Hi;
+  destruct i as [|[|[|[|i]]]]; cbn [nth]; lia.
+Qed.
+
+Lemma multibyte_lead s : (2 <= rune_size s)%nat -> 194 <= nth 0 s 0.
+Proof.
+  destruct s as [|p0 t]; [cbn; lia|]. unfold rune_size, decode_rune.
+  destruct (first_byte_cases p0) as [[E _]|[[E _]|(sz & lo & hi & E & Hsz & Hlo & Hhi & Hp0)]]; rewrite E; cbn [snd nth]; lia.
+Qed.
+
+(* the byte indices yielded by the range loop increase *)
+Lemma range_from_idx s : forall skip pos,
+  StronglySorted (fun a b : nat * N => (fst a < fst b)%nat) (range_from s skip pos) /\
+  Forall (fun p : nat * N => (pos <= fst p)%nat) (range_from s skip pos).
+Proof.
+  induction s as [|c t IH]; intros skip pos; [split; constructor|].
+  cbn [range_from]. destruct skip as [|k].
+  - destruct (decode_rune (c :: t)) as [r sz]. destruct (IH (sz - 1)%nat (S pos)) as [Hs Hf]. split.
+    + constructor; [assumption|]. eapply Forall_impl; [|exact Hf]. cbn. intros; lia.
+    + constructor; [cbn; lia|]. eapply Forall_impl; [|exact Hf]. cbn. intros; lia.
+  - destruct (IH k (S pos)) as [Hs Hf]. split; [assumption|].
+    eapply Forall_impl; [|exact Hf]. cbn. intros; lia.
+Qed.
